@@ -26,6 +26,29 @@ def fld(e, name=None):
     return None
 
 
+def _upper_bound(atom, is_x):
+    """largest value of x the comparison allows, for `x <= k`, `x + c <= k`, `K - x >= k` (and <, >, either way round)"""
+    op, l, r = atom
+    if r is None or op not in ("<", "<=", ">", ">="):
+        return None
+    if const_val(l) is not None and const_val(r) is None:
+        l, r = r, l
+        op = {"<": ">", "<=": ">=", ">": "<", ">=": "<="}[op]
+    k = const_val(r)
+    if k is None:
+        return None
+    l = strip(l)
+    if is_x(l):
+        return k if op == "<=" else k - 1 if op == "<" else None
+    if l.get("k") == "Bin" and l.get("op") == "+":
+        for a, b in ((l["L"], l["R"]), (l["R"], l["L"])):
+            if is_x(strip(a)) and const_val(b) is not None:
+                return k - const_val(b) if op == "<=" else k - const_val(b) - 1 if op == "<" else None
+    if l.get("k") == "Bin" and l.get("op") == "-" and const_val(l["L"]) is not None and is_x(strip(l["R"])):
+        return const_val(l["L"]) - k if op == ">=" else const_val(l["L"]) - k - 1 if op == ">" else None
+    return None
+
+
 def check(run, prog, tier):
     run.rule("C14-a", "every store into message_buf[] is at message_producer, has slack >= 1 on every path (full-buffer tests, re-test after flush), and is followed by producer = (producer+1) % SIZE and message_length++", 4)
     run.rule("C14-b", "flush_message: contiguous chunk length, modular consumer advance by the bytes sent, message_length -= bytes sent, nothing consumed when send fails, accepted bytes recorded in the connection record before any return", 5)
@@ -255,14 +278,9 @@ def check(run, prog, tier):
             run.saw(f)
             room = None
             for c, t, B in cfgq.guards(f, b.id):
-                op, l, r = atom_of(c, t)
-                if r is None or not fld(l, "message_length"):
-                    continue
-                k = const_val(r)
-                if k is None:
-                    continue
-                if (op == "<=" and k <= SIZE - 2) or (op == "<" and k <= SIZE - 1):
-                    room = "%s %s %d" % ("message_length", op, k)
+                ub = _upper_bound(atom_of(c, t), lambda e: fld(e, "message_length"))
+                if ub is not None and ub <= SIZE - 2:
+                    room = "message_length <= %d" % ub
             run.ob("C14-f", "mark-after-queue:%s:%d" % (f.name, j), room is not None, "`%s` under `%s`: the two bytes of IAC DM fit, so the byte marked is the DATA MARK" % (show(n)[:50], room) if room else
                    "`%s` (line %s) is not under a test that the ring has room for the reply: when it does not fit, the helper drops it and the mark lands on the last byte of ordinary output, which is then sent as urgent data and missing from the client's stream" % (show(n)[:50], n.get("l")),
                    f.file, n.get("l"), f.name, what="%s marks a byte as the telnet DATA MARK without knowing that the DATA MARK was queued" % f.name)
